@@ -476,6 +476,8 @@ func analyzeUDP(e *Env, o WireOpts) *WireReport {
 		return seg, u, err
 	}
 	var maxLag float64
+	lastDelivered := map[flowKey]string{} // kind of the last datagram of a session delivered TO the sender of that flow
+	closeSeqs := map[flowKey]map[uint32]string{}
 	for hi, ev := range hub {
 		dir := simnet.C2S
 		if ev.D.From == o.ServerAddr {
@@ -499,6 +501,8 @@ func analyzeUDP(e *Env, o WireOpts) *WireReport {
 					contig[fk]++
 				}
 			}
+			// the receiver of this datagram is the sender of the opposite flow
+			lastDelivered[flowKey{m.SessionID, 1 - dir}] = kindOf(m.Type)
 			rep.Obs["datagrams_delivered"]++
 		case "send":
 			rep.Obs["datagrams_sent"]++
@@ -544,6 +548,22 @@ func analyzeUDP(e *Env, o WireOpts) *WireReport {
 				if lag := float64(contig[opp]) - float64(m.UnAck); lag > maxLag {
 					maxLag = lag
 				}
+			}
+			// C13 (3'): a session's own close messages take fresh sequence
+			// numbers. The underlay's "session not registered" reply copies the
+			// peer's cumulative ack into seq and may legitimately collide; it
+			// is always triggered by a data/ack datagram delivered just before.
+			if m.Type == refcodec.CloseSessionRequest || m.Type == refcodec.CloseSessionResponse {
+				if closeSeqs[fk] == nil {
+					closeSeqs[fk] = map[uint32]string{}
+				}
+				if prev, ok := closeSeqs[fk][m.Seq]; ok && prev != refcodec.TypeName(m.Type) {
+					if lk := lastDelivered[fk]; lk != "data" && lk != "ack" {
+						rep.add("C13", "seq-reused-by-close-message", fmt.Sprintf("session %d %v: seq %d used for %s and again for %s (last datagram delivered to this endpoint: %s)", m.SessionID, dir, m.Seq, prev, refcodec.TypeName(m.Type), lk))
+					}
+				}
+				closeSeqs[fk][m.Seq] = refcodec.TypeName(m.Type)
+				rep.Obs["close_messages_checked"]++
 			}
 			// C13 (2),(3): retransmission identity and seq assignment
 			if m.Type == refcodec.OpenSessionRequest || m.Type == refcodec.OpenSessionResponse || refcodec.IsDataType(m.Type) {
